@@ -887,7 +887,9 @@ func fgAllLevels() []log.Level {
 	if !fgLevelsOnce {
 		fgLevelsOnce = true
 		fgLevels = []log.Level{log.NoneLevel, log.TraceLevel, log.DebugLevel, log.InfoLevel, log.WarnLevel, log.ErrorLevel, log.PanicLevel, log.FatalLevel,
-			log.RegisterLevel(350, "Notice"), log.RegisterLevel(50, "fine"), log.RegisterLevel(1500, "AUDIT_X")}
+			log.RegisterLevel(350, "Notice"), log.RegisterLevel(50, "fine"), log.RegisterLevel(1500, "AUDIT_X"),
+			// alias levels: another name for a code that is already taken (filtered like INFO / WARN, shown under their own name)
+			log.RegisterLevel(300, "audit"), log.RegisterLevel(400, "Warning")}
 		if fgHostileLevels {
 			// user-registered level names are arbitrary strings: the JSON line must stay one valid object whatever they contain
 			fgLevels = append(fgLevels, log.RegisterLevel(1601, "ESC\x1b[0m"), log.RegisterLevel(1602, "nul\x00x"), log.RegisterLevel(1603, "del\x7f"),
